@@ -1,9 +1,10 @@
 CONSTANTS
-  Leaves = {"c1", "c2", "c3", "c4", "c5"}
+  Leaves = {"c1", "c2", "c3", "c4", "c5", "l1", "l2"}
   Relays = {"r1", "r2"}
   Home <- GHome
   TaskIds = {"t1", "t2", "t3", "t4"}
   Payloads = {"p1", "p2", "p3", "p4", "p5", "p6"}
+  Auto = {"l1", "l2"}
   QCap = 10
   GenLen = 24
 INIT GInit
